@@ -26,7 +26,17 @@ ASSUMPTIONS = [
     "dyadic slices (coordinates in {0,1,6}, box 8, tilts +-2, r_cut EQUAL to a pair distance): distances are exact in both "
     "implementations, membership / cn are compared bit-exactly; among exactly equidistant neighbours any order is accepted "
     "and for N-nearest any choice among equidistant candidates is accepted",
-    "species ids are 1..K, all present, identical in every frame (the library indexes the cutoff matrix by type-1)",
+    "species ids are 1..K, all present (the library indexes the cutoff matrix by type-1); the species assignment may change per frame (same "
+    "species set): the types_vary slice exposed a genuine defect (neighbour species taken from frame 0), repaired by /repo commit e3f27dd",
+    "C05.scale: this slice enumerates SIZES (one deterministic generic value pattern per size and frame), not value assignments; margins are "
+    "evaluated per particle: a row with a rank / cutoff / half-cell-tie margin < 1e-9 is compared for grammar, self-exclusion and duplicates "
+    "only (>= 95 % of the rows of every frame must be fully comparable, otherwise the case counts as screened); the symmetry of the global "
+    "cutoff relation is demanded for pairs of fully comparable rows",
+    "C05.scale: a table returned by read_neighbors must keep its content when read_neighbors is called again (on the same or on another "
+    "handle): outputs are functions of the inputs, a returned array must not alias a work buffer",
+    "C05.scale: calling read_neighbors without Nmax means Nmax = 200 (documented default)",
+    "C05.argforms: ppp may be any sequence of 0/1 (list, tuple, ndarray); position arrays may have any memory layout; N, nparticle, Nmax may be "
+    "numpy integers; integer-valued cutoffs may be passed as int or float32; the file must then be byte-identical to the canonical call",
     "read_neighbors: the returned table of a neighbour list must have an integer dtype (zero-based indices usable for "
     "indexing); weight files (header without the token 'neighborlist') are returned as floats verbatim",
     "Nmax alphabet {1, m-1, m, m+1, 200} (m = largest cn of a frame), values >= 1; behaviour at end of file is not specified",
@@ -37,6 +47,22 @@ ASSUMPTIONS = [
 
 MARGIN = 1e-9
 FN = "c05_list.dat"
+
+# ============================================================================================================================
+# KNOWN_OPEN - slices that expose a GENUINE DEFECT of the unchanged tree that has not been repaired yet.  They are enumerated only
+# when their name is NOT listed here (or when VERIF_IGNORE_KNOWN_OPEN=1), so the registered check stays silent.  Remove the entry
+# once the repair is committed in /repo.
+#   "C05.cutoff_type.types_vary": cutoffneighbors_particletype builds its cutoff table from the species of FRAME 0
+#       (`cutoffs[i, j] = r_cut[i, snapshots.snapshots[0].particle_type[j] - 1]`) but takes the centre's species from the current frame.
+#       Witness: 2D box 10, particles (1,1),(2,1),(3,1) in two frames, species [1,1,2] then [2,1,1], r_cut = [[1.5,0.5],[0.5,0.5]]:
+#       frame 1 is written as `1: -, 2: 1, 3: 2` instead of `1: -, 2: 3, 3: 2`.
+#       Proposed repair: inside the per-snapshot loop `i_cutoffs = r_cut[particle_type[i] - 1, particle_type - 1]`.
+KNOWN_OPEN = []  # "C05.cutoff_type.types_vary" was repaired by /repo commit e3f27dd (known_findings.json: fixed)
+# ============================================================================================================================
+
+
+def is_open(name):
+    return name in KNOWN_OPEN and not os.environ.get("VERIF_IGNORE_KNOWN_OPEN")
 
 
 # ---------------------------------------------------------------------------------------------- geometry
@@ -260,6 +286,11 @@ def gen_cutoff_type(tier, seed):
                            "frames": more_frames(seed, pts, 3, d, f"ty{d}"), "types": types, "R": Rm}
                     yield {"kind": "type", "slice": "jl", "d": d, "cell": cell, "H": H.tolist(), "H_frames": varying_cells(H, 3), "ppp": mask,
                            "frames": more_frames(seed, pts, 3, d, f"ty{d}"), "types": types, "R": Rm}
+                    if not is_open("C05.cutoff_type.types_vary"):
+                        # the species attached to the ids change from frame to frame (same composition, rotated assignment)
+                        yield {"kind": "type", "slice": "jl", "d": d, "cell": cell, "H": H.tolist(), "ppp": mask,
+                               "frames": more_frames(seed, pts, 3, d, f"ty{d}"), "types": types,
+                               "types_frames": [types[f:] + types[:f] for f in range(3)], "R": Rm}
     # dyadic: matrix entries EQUAL to pair distances
     d = 2
     dp = dyadic_placements(2, "quick")
@@ -319,14 +350,17 @@ def run_calc(case):
         Rm = np.array(case["R"], float)
         sig["K"] = len(Rm)
         sig["asym"] = bool((Rm != Rm.T).any())
-    thr = thresholds(case, n)
+    tf = case.get("types_frames") or [types] * len(frames)
+    if case.get("types_frames"):
+        sig["types_vary"] = True
+    thrs = [thresholds(dict(case, types=t_), n) for t_ in tf]
     Hf = [np.array(h, float) for h in case["H_frames"]] if case.get("H_frames") else [H] * len(frames)
     if case.get("H_frames"):
         sig["cell_varies"] = True
     tables = [NB.dist_table(p, h, ppp) for p, h in zip(frames, Hf)]
     # ---- margins: screen BEFORE the implementation runs
     if sl != "dyadic":
-        for p, D, h in zip(frames, tables, Hf):
+        for p, D, h, thr in zip(frames, tables, Hf, thrs):
             m = min(NB.rank_margin(D), NB.self_margin(D))
             if thr is not None:
                 m = min(m, NB.cut_margin(D, thr))
@@ -334,7 +368,7 @@ def run_calc(case):
                 m = min(m, NB.geometry_margin(p, h, ppp))
             if m < MARGIN:
                 return R.screen()
-    snaps = mk_snaps(frames, np.array(Hf) if case.get("H_frames") else H, types)
+    snaps = mk_snaps(frames, np.array(Hf) if case.get("H_frames") else H, tf if case.get("types_frames") else types)
     before = [s.positions.copy() for s in snaps.snapshots]
     call_library(case, snaps, FN)
     with open(FN) as f:
@@ -364,7 +398,8 @@ def run_calc(case):
         elif kind == "cut":
             exp = NB.ref_cutoff(D, case["rc"])
         else:
-            exp = NB.ref_cutoff_type(D, types, case["R"])
+            exp = NB.ref_cutoff_type(D, tf[t], case["R"])
+        thr = thrs[t]
         for i in range(n):
             got = lists[i]
             populated += len(got)
@@ -656,6 +691,9 @@ def scale_geoms(d):
 def gen_scale(tier, seed):
     for d in (2, 3):
         G = scale_geoms(d)
+        # many frames through one file: 6 particles, 130 frames (the three cells of varying_cells in turn), cn on both sides of 3
+        yield {"kind": "cut", "rule": "q66", "pattern": "gas", "nc": 0, "scale": True, "seed": seed, "Np": 6, "d": d, "cell": "tri+",
+               "ppp": [1] * d, "F": 130}
         for si, Np in enumerate(SCALE_NP[tier]):
             nc = Np // 2 if Np < 1000 else 300
             items = []
@@ -745,7 +783,7 @@ def run_scale(case):
             e = e.tolist()
         else:
             e, c = X.cut_reference(D, thr, t_)
-        if c.mean() < MIN_CLEAN:
+        if c.sum() < min(int(np.ceil(MIN_CLEAN * n)), n - 2):   # (n - 2: the 6-particle many-frames file)
             return R.screen()
         exps.append(e)
         cleans.append(c)
@@ -875,6 +913,114 @@ def run_scale(case):
     return R
 
 
+# ---------------------------------------------------------------------------------------------- argument forms
+# The documentation allows `ppp` "setting 1 for yes and 0 for no" (any sequence), integer-valued cutoffs and counts of any integer
+# type; arrays may have any memory layout.  Differential oracle: the file written for a variant form must be byte-identical to the
+# file written for the canonical form (float64 C-ordered arrays, ndarray ppp, python scalars), which the other sub-checks verify.
+ARGFORMS = ["ppp_list", "ppp_tuple", "pos_fortran", "pos_noncontiguous", "types_int32", "scalar_numpy", "cutoff_int"]
+
+
+def gen_argforms(tier, seed):
+    for d in (2, 3):
+        pl = [p for p in placements(seed, d, "quick") if p[0] == "jl"]
+        pts = [p for p in pl if len(p[1]) == 5][0][1]
+        for cell, mask in (("orth", [1] * d), ("tri+", [1] * d), ("tri-", [1] + [0] * (d - 1))):
+            H = cell_for(d, cell)
+            base = {"d": d, "cell": cell, "H": H.tolist(), "ppp": mask, "frames": more_frames(seed, pts, 2, d, f"af{d}"), "slice": "jl"}
+            for form in ARGFORMS:
+                yield dict(base, kind="nn", N=2, form=form)
+                yield dict(base, kind="cut", rc=3.0, form=form)      # integer-valued cutoffs so that `cutoff_int` can pass 3 for 3.0
+                yield dict(base, kind="type", types=[1, 2, 1, 2, 2], R=[[3.0, 4.0], [2.0, 3.0]], form=form)
+
+
+def run_argforms(case):
+    from PyMatterSim.neighbors.calculate_neighbors import Nnearests, cutoffneighbors, cutoffneighbors_particletype
+    from PyMatterSim.neighbors.read_neighbors import read_neighbors
+    from PyMatterSim.reader.reader_utils import Snapshots
+
+    R = Result()
+    d, kind, form = case["d"], case["kind"], case["form"]
+    H = np.array(case["H"], float)
+    frames = [np.array(f, float) for f in case["frames"]]
+    n = len(frames[0])
+    types = case.get("types") or [1] * n
+    sig = {"kind": kind, "d": d, "cell": case["cell"], "form": form}
+    for p in frames:     # a cutoff of 3.0 must not sit on a pair distance
+        D = NB.dist_table(p, H, case["ppp"])
+        thr = thresholds(case, n)
+        m = min(NB.rank_margin(D), NB.self_margin(D), NB.geometry_margin(p, H, case["ppp"]) if case["cell"] != "orth" else 1.0)
+        if thr is not None:
+            m = min(m, NB.cut_margin(D, thr))
+        if m < MARGIN:
+            return R.screen()
+
+    def call(snaps, ppp, N, rc, Rm, fn):
+        if kind == "nn":
+            Nnearests(snaps, N=N, ppp=ppp, fnfile=fn)
+        elif kind == "cut":
+            cutoffneighbors(snaps, r_cut=rc, ppp=ppp, fnfile=fn)
+        else:
+            cutoffneighbors_particletype(snaps, r_cut=Rm, ppp=ppp, fnfile=fn)
+
+    canon_snaps = mk_snaps(frames, H, types)
+    call(canon_snaps, np.array(case["ppp"]), case.get("N"), case.get("rc"), np.array(case.get("R", [[0.0]]), float), "c05_canon.dat")
+    ppp, N, rc, Rm = np.array(case["ppp"]), case.get("N"), case.get("rc"), np.array(case.get("R", [[0.0]]), float)
+    snaps = mk_snaps(frames, H, types)
+    if form == "ppp_list":
+        ppp = list(case["ppp"])
+    elif form == "ppp_tuple":
+        ppp = tuple(case["ppp"])
+    elif form in ("pos_fortran", "pos_noncontiguous", "types_int32"):
+        new = []
+        for sn in snaps.snapshots:
+            pos = sn.positions
+            ty = sn.particle_type
+            if form == "pos_fortran":
+                pos = np.asfortranarray(pos)
+            elif form == "pos_noncontiguous":
+                wide = np.zeros((n, 2 * d))
+                wide[:, ::2] = pos
+                pos = wide[:, ::2]
+            else:
+                ty = np.asarray(ty, dtype=np.int32)
+            new.append(type(sn)(sn.timestep, sn.nparticle, ty, pos, sn.boxlength, sn.boxbounds, sn.realbounds, sn.hmatrix))
+        snaps = Snapshots(len(new), new)
+    elif form == "scalar_numpy":
+        N = None if N is None else np.int64(N)
+        rc = None if rc is None else np.float32(rc)     # 3.0 is exact in float32
+        Rm = Rm.astype(np.float32)
+    elif form == "cutoff_int":
+        rc = None if rc is None else int(rc)
+        Rm = Rm.astype(int)
+        N = None if N is None else np.int32(N)
+    call(snaps, ppp, N, rc, Rm, FN)
+    with open("c05_canon.dat") as f:
+        a = f.read()
+    with open(FN) as f:
+        b = f.read()
+    if a != b:
+        R.fail(f"file written for the argument form '{form}' differs from the canonical call", sig=dict(sig, clause="argform"), sub="C05.argforms",
+               exp=a[:600], obs=b[:600])
+    # read_neighbors with numpy integers for nparticle / Nmax
+    parsed, _ = NB.parse_listfile(a)
+    with open("c05_canon.dat") as f1, open(FN) as f2:
+        for fr in parsed:
+            lists1, _ = NB.frame_lists(fr, n)
+            m = max(len(l) for l in lists1)
+            t1 = read_neighbors(f1, n, max(m - 1, 1))
+            t2 = read_neighbors(f2, np.int64(n), np.int32(max(m - 1, 1)))
+            exp = NB.ref_read(lists1, n, max(m - 1, 1), True)
+            for t_, what in ((t1, "python ints"), (t2, "numpy ints")):
+                if t_.shape != exp.shape or not np.array_equal(t_, exp) or t_.dtype.kind not in "iu":
+                    R.fail(f"read_neighbors called with {what} differs from the file content", sig=dict(sig, clause="read_argform"), sub="C05.argforms")
+    os.remove("c05_canon.dat")
+    os.remove(FN)
+    R.outcome(b)
+    R.nontrivial = len(b.split()) > 6 * len(frames)
+    R.elem = n * len(frames)
+    return R
+
+
 # ---------------------------------------------------------------------------------------------- registry
 def subs(tier, seed):
     conf = ("all N-subsets (N=2..%d) of %d sites of a jittered 3^d lattice + cluster + gas, d in {2,3}, cells {orth, tri+, tri-}, "
@@ -915,10 +1061,16 @@ def subs(tier, seed):
             "geometries {orthogonal with shortest edge y, tri+, tri-} x {periodic, partial masks} x F in {1,3} with the cell (edges and tilts) "
             "changing per frame, %s; margins per particle (rows with a rank/cutoff/half-cell margin < 1e-9 are compared for grammar only, "
             ">= 95 %% of the rows of every frame must be comparable); every written row compared with a vectorised full-sort reference; then "
-            "read_neighbors: every rotation of the Nmax alphabet {1,m-1,m,m+1,200,default} over the frames of one open handle, and two handles "
+            "one 130-frame file of 6 particles per d; read_neighbors: every rotation of the Nmax alphabet {1,m-1,m,m+1,200,default} over the frames of one open handle, and two handles "
             "open at once (neighbour file + weights file of the same topology) with interleaved reads; returned tables are compared again after "
             "all later reads; non-trivial = some row compared and (cutoffs) unequal coordination numbers"
             % (SCALE_NP[tier], "one geometry per item, rotating over the sizes" if tier == "quick" else "all six geometries per item"),
             bounds={"Np": SCALE_NP[tier], "N": SCALE_NN, "F": [1, 3]}),
+        Sub("C05.argforms", gen_argforms, run_argforms,
+            rule="documented argument forms: 5 particles, 2 frames, d in {2,3}, 3 geometries, {N-nearest, global cutoff, type-pair cutoff} x forms "
+            + str(ARGFORMS) + " (ppp as list / tuple, Fortran-ordered and non-contiguous position arrays, int32 species, numpy scalars for N / "
+            "r_cut, integer cutoffs); differential oracle: file byte-identical to the canonical call (ndarray ppp, float64 C-ordered, python "
+            "scalars); read_neighbors with numpy integers for nparticle / Nmax; non-trivial = some list non-empty",
+            bounds={"forms": len(ARGFORMS)}),
     ]
     return s
